@@ -151,6 +151,7 @@ func (e *E) Kinds() []string {
 type Style struct {
 	Ident  string // "" (bare where possible, backtick otherwise), "bt" (always backtick), "dq" (always double quotes)
 	Arrays string // "" => ARRAY(...), "br" => [...]
+	Quote  string // "" => a quote inside a string literal is doubled (''), "bs" => it is backslash-escaped (\')
 }
 
 // NumLit renders a float64 as a SQL numeric literal the engine reads back exactly.
@@ -240,6 +241,10 @@ func Render(e *E, st *Style) string {
 	case "num":
 		return NumLit(e.N)
 	case "str":
+		if st != nil && st.Quote == "bs" {
+			inner := StrLit(e.S)
+			return "'" + strings.ReplaceAll(inner[1:len(inner)-1], "''", "\\'") + "'"
+		}
 		return StrLit(e.S)
 	case "bool":
 		if e.B {
